@@ -1,6 +1,9 @@
 package validator
 
-import e "github.com/aml-org/amf-custom-validator/pkg/events"
+import (
+	"fmt"
+	e "github.com/aml-org/amf-custom-validator/pkg/events"
+)
 
 func dispatchEvent(event e.Event, eventChan *chan e.Event) {
 	if eventChan != nil {
@@ -11,5 +14,13 @@ func dispatchEvent(event e.Event, eventChan *chan e.Event) {
 func CloseEventChan(eventChan *chan e.Event) {
 	if eventChan != nil {
 		close(*eventChan)
+	}
+}
+
+// recoverAsError is deferred by every pipeline stage: a panic raised below the stage (malformed profile or data,
+// dependencies) becomes the error result of the stage, so callers get an error value and close the event channel
+func recoverAsError(err *error) {
+	if r := recover(); r != nil {
+		*err = fmt.Errorf("%v", r)
 	}
 }
